@@ -397,6 +397,10 @@ func (p *Parser) parseQualifiedRuleDeclarationList() GrammarType {
 	return p.parseDeclarationList()
 }
 
+func isCombinator(data []byte) bool {
+	return len(data) == 1 && (data[0] == ',' || data[0] == '>' || data[0] == '+' || data[0] == '~')
+}
+
 func (p *Parser) parseDeclaration() GrammarType {
 	var offset int // first colon offset
 	p.initBuf()
@@ -458,7 +462,21 @@ func (p *Parser) parseDeclaration() GrammarType {
 			p.prevEnd = (tt == RightBraceToken)
 			return DeclarationGrammar
 		} else if tt == LeftBraceToken && p.level == 0 && p.isStylesheet {
-			// nested ruleset
+			// nested ruleset, remove whitespace around combinators and inside attribute selectors like for a qualified rule
+			j := 0
+			inAttrSel := false
+			for i, t := range p.buf {
+				if t.TokenType == WhitespaceToken && (inAttrSel || 0 < j && isCombinator(p.buf[j-1].Data) || i+1 < len(p.buf) && isCombinator(p.buf[i+1].Data)) {
+					continue
+				} else if t.TokenType == LeftBracketToken {
+					inAttrSel = true
+				} else if t.TokenType == RightBracketToken {
+					inAttrSel = false
+				}
+				p.buf[j] = t
+				j++
+			}
+			p.buf = p.buf[:j]
 			p.tt = WhitespaceToken
 			p.data = emptyBytes
 			p.state = append(p.state, (*Parser).parseQualifiedRuleDeclarationList)
